@@ -16,7 +16,8 @@ is a superset of the feasible ones (values are abstracted away), so a discharged
 violated one comes with the offending path, which may be infeasible - it is then replayed by the property's bounded
 stand-in before it is reported as a violation with a failing input.
 
-Subset: assignments, expression statements, if / for (zero or one abstract iteration, events bracketed by loop markers) /
+Subset: assignments, expression statements, if / for (zero iterations, or one abstract iteration that stands for any iteration - the
+locals the body assigns are unknown at its start -, events bracketed by loop markers) /
 try / return / raise / with / local def / pass / assert; expressions evaluated in Python's order.  `while`, generators
 (`yield`), `async` constructs, `nonlocal` make generation fail (Unsupported) - reported as degraded, never as a violation.
 """
@@ -445,6 +446,19 @@ class Engine:
             out += self.block(s.orelse, skip) if s.orelse else [(skip, "next", None)]
             b = a.fork("L%d.iter" % s.lineno)
             b.emit("for[%s]{" % text)
+            # the abstract iteration stands for *any* iteration: locals the body assigns are unknown at its start
+            for n_ in ast.walk(ast.Module(body=list(s.body), type_ignores=[])):
+                targets = []
+                if isinstance(n_, ast.Assign):
+                    targets = n_.targets
+                elif isinstance(n_, (ast.AugAssign, ast.AnnAssign, ast.NamedExpr)):
+                    targets = [n_.target]
+                elif isinstance(n_, ast.For):
+                    targets = [n_.target]
+                for t_ in targets:
+                    for x_ in ast.walk(t_):
+                        if isinstance(x_, ast.Name) and b.lookup(x_.id) is not None:
+                            b.bind(x_.id, Unknown(x_.id))
             self.assign(s.target, Unknown(), b)
             for c, k2, v2 in self.block(s.body, b):
                 if k2 in ("next", "continue", "break"):
